@@ -339,9 +339,11 @@ class Interp(object):
 
     def s_AugAssign(self, st, node):
         load = _as_load(node.target)
-        binop = ast.BinOp(left=load, op=node.op, right=node.value)
-        ast.copy_location(binop, node)
-        ast.fix_missing_locations(binop)
+        binop = getattr(node, "_binop", None)
+        if binop is None:
+            binop = ast.BinOp(left=load, op=node.op, right=node.value)
+            ast.copy_location(binop, node)
+            node._binop = binop
         res = []
         for (s, k, v) in self.eval(st, binop):
             if k != "val":
@@ -800,11 +802,19 @@ def _hashable(v):
 
 
 def _as_load(target):
-    import copy
-    t = copy.deepcopy(target)
-    for n in ast.walk(t):
-        if hasattr(n, "ctx"):
-            n.ctx = ast.Load()
+    cached = getattr(target, "_as_load", None)
+    if cached is not None:
+        return cached
+    if isinstance(target, ast.Name):
+        t = ast.Name(id=target.id, ctx=ast.Load())
+    elif isinstance(target, ast.Attribute):
+        t = ast.Attribute(value=target.value, attr=target.attr, ctx=ast.Load())
+    elif isinstance(target, ast.Subscript):
+        t = ast.Subscript(value=target.value, slice=target.slice, ctx=ast.Load())
+    else:
+        raise Unsupported("augmented assignment target %s" % type(target).__name__)
+    ast.copy_location(t, target)
+    target._as_load = t
     return t
 
 
